@@ -26,10 +26,12 @@ func main() {
 		ID:    "C05",
 		Level: "exploration",
 		Rule: "a class is (listener kind {plain+CONNECT, trafficshape+CONNECT, transparent TLS} x tunnel content {tls, clear} x request index on the connection {1,2,3+} x " +
-			"target form {origin, origin without Host (HTTP/1.1 and 1.0), absolute https, absolute http, each with/without Host header} x hijack {none, request side, response side}), " +
+			"target form {origin, origin without Host (HTTP/1.1 and 1.0), absolute https, absolute http, each with/without Host header} x {no hijack, hijack request side, hijack response side, " +
+			"upstream answers the TLS ClientHello with plain bytes}), plus (CONNECT authority spelling {name, mixed-case name, non-443 port, IPv4 literal, bracketed IPv6 literal} x target form), " +
 			"counted for requests whose modifier calls the monitor recorded and evaluated; cases are 1-3 concurrent connections of 1-8 requests drawn from VERIF_SEED",
 		Assumptions: []string{
-			"'the tunnel's authority as host when none is given' is demanded only for origin-form requests that carry no Host header inside a CONNECT tunnel; Host headers and absolute targets that are given always name a harness host and are not compared with the tunnel authority",
+			"'the tunnel's authority as host when none is given' is demanded only for origin-form requests that carry no Host header inside a CONNECT tunnel, and compared with the authority as the client sent it (same port, names case-insensitive, IP literals IP-equal); Host headers and absolute targets that are given always name a harness host and are not compared with the tunnel authority",
+			"when the origin answers the proxy's TLS ClientHello with non-TLS bytes nothing can be forwarded over TLS: only 'never in cleartext' and 'response inside the TLS session' are demanded for that request (the status, 502 in practice, is not asserted)",
 			"on the transparent TLS listener there is no CONNECT, hence no tunnel authority and no CONNECT session; requests without any host are not generated there",
 			"'the connection's TLS state attached' is checked as req.TLS != nil with the version, cipher suite and server name the client negotiated and HandshakeComplete",
 			"'handed the decrypted connection' is decided behaviourally: bytes the hijacker writes on the net.Conn returned by Session.Hijack must arrive as plaintext inside the client's TLS session, and the client's reply must be readable from that net.Conn",
@@ -65,11 +67,13 @@ type req5 struct {
 	Proto  string `json:"proto"`
 	Host   string `json:"host"`          // literal Host header ("" = none)
 	Hij    string `json:"hij,omitempty"` // "" | req | res
+	Up     string `json:"up,omitempty"`  // "" | plainreply: the origin answers the TLS ClientHello for this request's (own) host with plain bytes
 }
 
 type conn5 struct {
-	T     string `json:"t"`     // label: tunnel host is T.vh.test, the CONNECT exchange id is T
-	Inner string `json:"inner"` // tls | clear
+	T     string `json:"t"`              // label: the CONNECT exchange id is T; default tunnel host is T.vh.test
+	Auth  string `json:"auth,omitempty"` // literal CONNECT authority as the client sends it ("" = T.vh.test:443)
+	Inner string `json:"inner"`          // tls | clear
 	Reqs  []req5 `json:"reqs"`
 }
 
@@ -80,6 +84,80 @@ type c05Case struct {
 	Listener  string  `json:"listener"` // plain | shaped | tls
 	Transport string  `json:"transport"`
 	Conns     []conn5 `json:"conns"`
+}
+
+// authInfo describes the CONNECT authority of a connection as the client
+// spells it.
+type authInfo struct {
+	auth   string // literal authority: name:port, v4:port, [v6]:port
+	bare   string // host as it appears in URLs / Host headers without port: name, v4, [v6]
+	host   string // host without brackets
+	port   string
+	ip     net.IP // non-nil for IP literals
+	verify string // name the client verifies the forged certificate for (lower-case name or IP); the SNI is sent only for names
+	sni    string // server name the client's ClientHello carries ("" for IP literals)
+	kind   string // coverage: name | mixedcase | port | ipv4 | ipv6
+}
+
+func parseAuth(cs conn5) authInfo {
+	a := cs.Auth
+	if a == "" {
+		a = modx.Host(cs.T) + ":443"
+	}
+	ai := authInfo{auth: a, kind: "name"}
+	h, p, err := net.SplitHostPort(a)
+	if err != nil {
+		h, p = a, "443"
+	}
+	ai.host, ai.port = h, p
+	ai.bare = h
+	if ip := net.ParseIP(h); ip != nil {
+		ai.ip = ip
+		ai.verify = ip.String()
+		ai.kind = "ipv4"
+		if ip.To4() == nil {
+			ai.bare = "[" + h + "]"
+			ai.kind = "ipv6"
+		}
+	} else {
+		ai.verify = strings.ToLower(h)
+		ai.sni = ai.verify
+		switch {
+		case h != ai.verify:
+			ai.kind = "mixedcase"
+		case p != "443":
+			ai.kind = "port"
+		}
+	}
+	return ai
+}
+
+// sameAuthority reports whether got (a URL host) denotes the authority the
+// client sent: same port (443 when got has none), host equal ignoring case
+// for names and as an IP address for literals.
+func sameAuthority(got string, ai authInfo) bool {
+	gh, gp, err := net.SplitHostPort(got)
+	if err != nil {
+		switch {
+		case strings.HasPrefix(got, "[") && strings.HasSuffix(got, "]"):
+			gh = got[1 : len(got)-1]
+		case !strings.Contains(got, ":"):
+			gh = got
+		default:
+			return false // neither host nor host:port (e.g. an unbracketed IPv6 literal with a port glued on)
+		}
+		gp = "443"
+	} else if strings.HasPrefix(got, "[") != strings.Contains(gh, ":") {
+		return false
+	}
+	if gh == "" || gp != ai.port {
+		return false
+	}
+	if ai.ip != nil {
+		gip := net.ParseIP(gh)
+		return gip != nil && gip.Equal(ai.ip)
+	}
+	return strings.EqualFold(gh, ai.host)
 }
 
 func genCase(rng *rand.Rand, stream string, idx int, race bool) c05Case {
@@ -98,7 +176,21 @@ func genCase(rng *rand.Rand, stream string, idx int, race bool) c05Case {
 		if c.Listener != "tls" && rng.Intn(6) == 0 {
 			cs.Inner = "clear"
 		}
-		th := modx.Host(cs.T)
+		// how the client spells the CONNECT authority (not on the transparent listener)
+		if c.Listener != "tls" {
+			switch x := rng.Intn(100); {
+			case x < 45:
+			case x < 55:
+				cs.Auth = strings.ToUpper(cs.T[:1]) + cs.T[1:] + ".Vh.TEST:443"
+			case x < 65:
+				cs.Auth = modx.Host(cs.T) + ":8443"
+			case x < 78:
+				cs.Auth = modx.IPs[rng.Intn(2)] + []string{":443", ":8443"}[rng.Intn(2)]
+			default:
+				cs.Auth = "[" + modx.IPs[2+rng.Intn(2)] + "]" + []string{":443", ":8443"}[rng.Intn(2)]
+			}
+		}
+		ai := parseAuth(cs)
 		nreq := 1 + rng.Intn(8)
 		hijAt := -1
 		if rng.Intn(100) < 35 {
@@ -108,12 +200,13 @@ func genCase(rng *rand.Rand, stream string, idx int, race bool) c05Case {
 			q := req5{X: fmt.Sprintf("%sk%dc%dr%d", tag, idx, ci, i), Proto: "HTTP/1.1"}
 			// the host a given target / Host header names: the tunnel host (with or
 			// without port) or, sometimes, another harness host
-			given := th
+			given := ai.bare
+			own := false
 			switch rng.Intn(5) {
 			case 0:
-				given = th + ":443"
+				given = ai.auth
 			case 1:
-				given = modx.Host(q.X)
+				given, own = modx.Host(q.X), true
 			}
 			var forms []string
 			switch {
@@ -125,8 +218,8 @@ func genCase(rng *rand.Rand, stream string, idx int, race bool) c05Case {
 				forms = []string{"origin", "origin", "origin-nohost", "origin-nohost10", "abs-https", "abs-https-nohost", "abs-http", "abs-http-nohost"}
 			}
 			q.Form = forms[rng.Intn(len(forms))]
-			if cs.Inner == "clear" {
-				given = strings.TrimSuffix(given, ":443")
+			if cs.Inner == "clear" && given == ai.auth {
+				given = ai.bare
 			}
 			switch q.Form {
 			case "origin":
@@ -140,14 +233,23 @@ func genCase(rng *rand.Rand, stream string, idx int, race bool) c05Case {
 			case "abs-https-nohost":
 				q.Target = "https://" + given + "/" + q.X
 			case "abs-http":
-				given = strings.TrimSuffix(given, ":443")
+				if given == ai.auth {
+					given = ai.bare
+				}
 				q.Target, q.Host = "http://"+given+"/"+q.X, given
 			case "abs-http-nohost":
-				given = strings.TrimSuffix(given, ":443")
+				if given == ai.auth {
+					given = ai.bare
+				}
 				q.Target = "http://" + given + "/" + q.X
 			}
 			if i == hijAt {
 				q.Hij = []string{"req", "res"}[rng.Intn(2)]
+			}
+			// upstream fault: the host of this request (its own, so that no other
+			// exchange is affected) answers the TLS ClientHello with plain bytes
+			if own && cs.Inner == "tls" && q.Hij == "" && !strings.HasPrefix(q.Form, "origin-nohost") && rng.Intn(2) == 0 {
+				q.Up = "plainreply"
 			}
 			cs.Reqs = append(cs.Reqs, q)
 			if q.Hij != "" {
@@ -220,12 +322,12 @@ func runConn(g *modx.Rig, c c05Case, cs conn5, out *connOut) {
 		return
 	}
 	out.cl = cl
-	th := modx.Host(cs.T)
+	ai := parseAuth(cs)
 	if c.Listener != "tls" {
 		a := modx.NewAction()
 		a.Srv = cl.Srv
 		g.Rec.SetAction(cs.T, a)
-		if err := cl.Send(fmt.Sprintf("CONNECT %s:443 HTTP/1.1\r\nHost: %s:443\r\nX-Vh-Id: %s\r\n\r\n", th, th, cs.T)); err != nil {
+		if err := cl.Send(fmt.Sprintf("CONNECT %s HTTP/1.1\r\nHost: %s\r\nX-Vh-Id: %s\r\n\r\n", ai.auth, ai.auth, cs.T)); err != nil {
 			out.harness = "CONNECT write: " + err.Error()
 			return
 		}
@@ -237,7 +339,7 @@ func runConn(g *modx.Rig, c c05Case, cs conn5, out *connOut) {
 		out.connectResp = resp
 	}
 	if cs.Inner == "tls" {
-		if err := cl.StartTLS(th, g.CA.Pool); err != nil {
+		if err := cl.StartTLS(ai.verify, g.CA.Pool); err != nil {
 			out.harness = "client TLS handshake: " + err.Error()
 			return
 		}
@@ -251,6 +353,9 @@ func runConn(g *modx.Rig, c c05Case, cs conn5, out *connOut) {
 		a.Srv = cl.Srv
 		a.HijackReq, a.HijackRes = q.Hij == "req", q.Hij == "res"
 		g.Rec.SetAction(q.X, a)
+		if q.Up == "plainreply" {
+			g.O.SetPlainReply(modx.Host(q.X))
+		}
 		if err := cl.Send(render(q)); err != nil {
 			o.cerr = err
 			return
@@ -297,10 +402,6 @@ func idxBucket(i int) string {
 		return "2"
 	}
 	return "3+"
-}
-
-func sameAuthority(got, host string) bool {
-	return got == host || got == host+":443"
 }
 
 func runCase(r *vh.Run, ca *modx.CA, c c05Case) {
@@ -362,6 +463,7 @@ func runCase(r *vh.Run, ca *modx.CA, c c05Case) {
 	r.Count("origin_arrivals", int64(len(arrivals)))
 	r.Count("upstream_tls_connections", g.O.TLSConns())
 	r.Count("upstream_cleartext_connections", g.O.CleartextConns())
+	r.Count("upstream_clienthellos_answered_in_plain", g.O.PlainReplies())
 	byX := map[string][]modx.Call{}
 	for _, cc := range calls {
 		byX[cc.XID] = append(byX[cc.XID], cc)
@@ -377,7 +479,7 @@ func runCase(r *vh.Run, ca *modx.CA, c c05Case) {
 			r.Inconclusive(o.harness, map[string]interface{}{"connection": ci})
 			continue
 		}
-		th := modx.Host(cs.T)
+		ai := parseAuth(cs)
 		// session of the CONNECT exchange
 		connectSess := ""
 		if c.Listener != "tls" {
@@ -398,7 +500,7 @@ func runCase(r *vh.Run, ca *modx.CA, c c05Case) {
 			q := ro.q
 			cl := byX[q.X]
 			wit := func(extra map[string]interface{}) map[string]interface{} {
-				m := map[string]interface{}{"request": q, "index_on_connection": ro.idx + 1, "listener": c.Listener, "tunnel_content": cs.Inner, "tunnel_authority": th + ":443"}
+				m := map[string]interface{}{"request": q, "index_on_connection": ro.idx + 1, "listener": c.Listener, "tunnel_content": cs.Inner, "tunnel_authority": ai.auth}
 				var ev []string
 				for _, cc := range cl {
 					ev = append(ev, fmt.Sprintf("%smod: scheme=%q url.host=%q host=%q secure=%v tls_attached=%v session=%s", cc.Side, cc.Scheme, cc.URLHost, cc.ReqHost, cc.Secure, cc.TLS != nil, cc.SessID))
@@ -437,17 +539,17 @@ func runCase(r *vh.Run, ca *modx.CA, c c05Case) {
 					if !cc.Secure {
 						r.Violation("C05:secure:"+lclass, "a request decrypted from the tunnel was presented on a session not marked secure", wit(nil))
 					}
-					if strings.HasPrefix(q.Form, "origin-nohost") && c.Listener != "tls" && !sameAuthority(cc.URLHost, th) {
+					if strings.HasPrefix(q.Form, "origin-nohost") && c.Listener != "tls" && !sameAuthority(cc.URLHost, ai) {
 						hostViolated = true
-						r.Violation("C05:default-host:"+q.Form, fmt.Sprintf("a request without any host was presented with URL host %q, not the tunnel's authority", cc.URLHost), wit(nil))
+						r.Violation("C05:default-host:"+q.Form+"/"+ai.kind, fmt.Sprintf("a request without any host was presented with URL host %q, not the tunnel's authority %q", cc.URLHost, ai.auth), wit(nil))
 					}
 					switch {
 					case cc.TLS == nil:
 						r.Violation("C05:tls-state:"+when, "a request decrypted from the tunnel was presented without the connection's TLS state (req.TLS == nil)", wit(nil))
-					case o.cstate != nil && (cc.TLS.Version != o.cstate.Version || cc.TLS.CipherSuite != o.cstate.CipherSuite || cc.TLS.ServerName != th || !cc.TLS.HandshakeComplete):
+					case o.cstate != nil && (cc.TLS.Version != o.cstate.Version || cc.TLS.CipherSuite != o.cstate.CipherSuite || cc.TLS.ServerName != ai.sni || !cc.TLS.HandshakeComplete):
 						r.Violation("C05:tls-state:"+when, "the TLS state attached to the request is not the state of the client's connection",
 							wit(map[string]interface{}{"attached": fmt.Sprintf("v=%x cs=%x sni=%q done=%v", cc.TLS.Version, cc.TLS.CipherSuite, cc.TLS.ServerName, cc.TLS.HandshakeComplete),
-								"client": fmt.Sprintf("v=%x cs=%x sni=%q", o.cstate.Version, o.cstate.CipherSuite, th)}))
+								"client": fmt.Sprintf("v=%x cs=%x sni=%q", o.cstate.Version, o.cstate.CipherSuite, ai.sni)}))
 					}
 				} else {
 					if cc.Scheme != "http" {
@@ -464,10 +566,14 @@ func runCase(r *vh.Run, ca *modx.CA, c c05Case) {
 			if cs.Inner == "tls" {
 				for _, a := range arrX[q.X] {
 					if !a.TLS {
-						r.Violation("C05:upstream-tls:"+q.Form, "a request decrypted from the tunnel reached the origin in cleartext", wit(nil))
+						if q.Up != "" {
+							r.Violation("C05:upstream-tls:after-"+q.Up, "a request decrypted from the tunnel reached the origin in cleartext after the origin had answered the TLS ClientHello with non-TLS bytes", wit(nil))
+						} else {
+							r.Violation("C05:upstream-tls:"+q.Form, "a request decrypted from the tunnel reached the origin in cleartext", wit(nil))
+						}
 					}
 				}
-				if q.Hij != "req" && len(arrX[q.X]) == 0 && !hostViolated {
+				if q.Hij != "req" && q.Up == "" && len(arrX[q.X]) == 0 && !hostViolated {
 					r.Violation("C05:forwarded:"+q.Form, "a request decrypted from the tunnel never reached the origin", wit(nil))
 				}
 			}
@@ -518,7 +624,15 @@ func runCase(r *vh.Run, ca *modx.CA, c c05Case) {
 			if q.Hij != "" {
 				hj = "hijack-" + q.Hij
 			}
+			if q.Up != "" {
+				hj = "upstream-" + q.Up
+				r.Count("upstream_fault_requests", 1)
+				if ro.resp != nil {
+					r.Count(fmt.Sprintf("upstream_fault_client_status_%d", ro.resp.Status), 1)
+				}
+			}
 			r.Class(fmt.Sprintf("%s/%s/idx%s/%s/%s", lclass, cs.Inner, idxBucket(ro.idx), q.Form, hj))
+			r.Class("authority/" + ai.kind + "/" + q.Form)
 		}
 	}
 	if c.Idx == 0 {
